@@ -787,6 +787,33 @@ def p_chain( ctx ):
     return res
 
 
+@rule( 'K-VALIDATE', props=( 'C12', ), floor=1 )
+def k_validate( ctx ):
+    """connector.validate ( used with printing / validating ) substitutes the request's data for the value of a write, to have something to show;
+    a REFUSED write must still come out without a value - as it does without validation: the substitution is undone ( val = None ) under a
+    test of the reply's status before the tuple is yielded.  Otherwise `client --print` counts a refused write as a success and the result of
+    an operation list depends on whether it is printed"""
+    res = Result( 'K-VALIDATE' )
+    src = ctx.src( 'server/enip/client.py' )
+    fn = src.get( 'connector.validate' )
+    ylds = [ y for y in ast.walk( fn ) if isinstance( y, ast.Yield ) and isinstance( y.value, ast.Tuple ) and len( y.value.elts ) == 6 ]
+    if not ylds:
+        raise AnalysisError( 'connector.validate: the yield of ( index, descr, request, reply, status, value ) not found' )
+    V = dotted( ylds[0].value.elts[5] ); RPY = dotted( ylds[0].value.elts[3] )
+    subs = [ a for a in ast.walk( fn ) if isinstance( a, ast.Assign ) and any( dotted( t ) == V for t in a.targets ) and isinstance( a.value, ast.Attribute ) and a.value.attr == 'data' and 'write' in txt( a.value ) ]
+    if not subs:
+        res.ok( src, ylds[0], 'connector.validate does not substitute request data for the value of a write' )
+        return res
+    undo = [ i for i in ast.walk( fn ) if isinstance( i, ast.If ) and ( RPY + '.status' ) in [ dotted( x ) for x in ast.walk( i.test ) ] and i.lineno > max( a.lineno for a in subs )
+             and any( isinstance( b, ast.Assign ) and any( dotted( t ) == V for t in b.targets ) and isinstance( b.value, ast.Constant ) and b.value.value is None for b in i.body ) ]
+    conditional = all( any( isinstance( g, ast.If ) and ( RPY + '.status' ) in [ dotted( x ) for x in ast.walk( g.test ) ] and isinstance( g.test, ast.UnaryOp ) for g in src.ancestors( a )) for a in subs )
+    if undo or conditional:
+        res.ok( src, ( undo[0] if undo else subs[0] ), 'a refused write is yielded without a value ( %d substitutions of request data )' % len( subs ))
+    else:
+        res.bad( src, subs[0], 'connector.validate yields the request\'s data as the value of a write whatever the reply\'s status', 'with printing / validating a refused write ( beyond the end, wrong type ) comes out with a truthy value: process( printing=True ) and `client --print` count it as a success - 0 failures where the same list without printing reports 2' )
+    return res
+
+
 @rule( 'K-TIMEOUT', props=( 'C12', 'C13' ), floor=1 )
 def k_timeout( ctx ):
     """connector.collect: the time-out applies to EACH reply - the caller's value is handed to await_response unchanged inside the loop.  Made a
@@ -1046,6 +1073,28 @@ def t_context( ctx ):
     else:
         res.ok( src, fr[-1], 'format_context: right-padded to 8 octets; parse_context: removes exactly that padding (%d sample contexts round-trip)' % len( samples ))
         res.ok( src, pr[-1], 'a context with leading or inner NUL octets is reported unchanged' )
+    # the context a request index is turned into survives the wire: what connector.index_to_sender_context returns, formatted to the 8 octets
+    # of the header and parsed back, is what it returned - for every index ( decimal text of nine digits is cut on the wire, the echo then
+    # "mismatches" although the server echoed it exactly ); evaluated on sample indices
+    ic = src.get( 'connector.index_to_sender_context' )
+    ir = [ r for r in ic.body if isinstance( r, ast.Return ) ]
+    if not ir:
+        raise AnalysisError( 'connector.index_to_sender_context: return not found' )
+    IA = ic.args.args[1].arg
+    lost = []
+    for idx in ( 0, 7, 99999999, 100000000, 100000009, 4294967296 ):
+        try:
+            c0 = fold( ir[-1].value, { IA: idx } )
+            back = fold( pr[-1].value, { PA: fold( fr[-1].value, { FA: c0 } ) } )
+        except NoFold as exc:
+            raise AnalysisError( 'index_to_sender_context outside the modelled subset: %s' % str( exc )[:100] )
+        res.cells += 1
+        if bytes( back ) != bytes( c0 ):
+            lost.append(( idx, bytes( c0 ), bytes( back )))
+    if lost:
+        res.bad( src, ir[-1], 'request index %d -> context %r -> echoed as %r' % lost[0], 'the context is longer than the 8 octets the header carries: it is cut on the wire and the correct echo of the server no longer equals the context the client expects - every reply from that index on is "Mismatched"' )
+    else:
+        res.ok( src, ir[-1], 'the context made from a request index fits the 8 octets of the header ( 6 sample indices survive the wire )' )
     return res
 
 
